@@ -338,11 +338,12 @@ class Ctx:
 def write_json(path, obj):
     os.makedirs(os.path.dirname(path), exist_ok=True)
     tmp = path + '.tmp%d' % os.getpid()
-    with open(tmp, 'w', encoding='utf-8') as f:
+    # lone surrogates (they occur in generated inputs) are written as \\udXXX escapes: still valid JSON
+    with open(tmp, 'w', encoding='utf-8', errors='backslashreplace') as f:
         json.dump(obj, f, indent=1, ensure_ascii=False, default=repr)
         f.write('\n')
     os.replace(tmp, path)
 
 
 def jhash(obj):
-    return hashlib.sha1(json.dumps(obj, sort_keys=True, default=repr, ensure_ascii=False).encode('utf-8')).hexdigest()[:12]
+    return hashlib.sha1(json.dumps(obj, sort_keys=True, default=repr, ensure_ascii=False).encode('utf-8', 'backslashreplace')).hexdigest()[:12]
